@@ -152,6 +152,9 @@ func checkC03(w *World, c *Check, tier string) {
 				for _, st := range ws {
 					for _, g := range st.guards {
 						if !guardOnField(g, s, f.Index) {
+							if other := guardOnOtherField(g, s, f.Index); other != "" && g.side != sideNeutral {
+								gbad = fmt.Sprintf("key %q is stored only when another property (%s) is set/unset (%s): the property is dropped whenever that other one is absent", st.names, other, g.desc)
+							}
 							continue
 						}
 						if g.side == sideUnset {
